@@ -62,6 +62,15 @@ def main():
         ran["demo_mutant_exit"] = r1.returncode
         ran["demo_mutant_tail"] = (r1.stdout + r1.stderr)[-400:]
         os.remove(demo_local)
+        if skip_suite:
+            # detection-only re-run after a check was strengthened: keep what an earlier full confirmation recorded about the suite
+            try:
+                old = json.load(open(os.path.join(VERIF, "seeded", sid, "meta.json")))["verified"]
+                if "baseline_ok" in old:
+                    ran["baseline"], ran["baseline_ok"] = old["baseline"], old["baseline_ok"]
+                    ran["baseline_from_earlier_confirmation"] = True
+            except Exception:
+                pass
         if not skip_suite:
             b = sh("python3 %s/tools/baseline.py %s" % (VERIF, wt))
             ran["baseline"] = b.stdout.strip().splitlines()[0] if b.stdout.strip() else b.stderr[-200:]
